@@ -158,6 +158,7 @@ fn case() -> impl Strategy<Value = Case> {
 
 fn run(ctx: &Ctx) -> Report {
     let mut rep = Report::new(RULE);
+    rep.assume(&prog::budget_note());
     rep.assume("sinks never return Ok(0) for a non-empty buffer and sources return at least 1 byte until the end (the Write/Read contracts)");
     explore(&mut rep, ctx, "schedules", if SCALED { ctx.n(6_000, 200_000) } else { ctx.n(60, 1_500) }, case, oracle);
     rep
